@@ -13,7 +13,7 @@
 From Coq Require Import List ZArith Bool.
 From TM Require Import Gram.Derive.
 From TM Require Import Gram.Cfg Gram.LalrRef Gram.Prec Gram.Prec_proofs Gram.PTables Gram.LalrTables.
-From TM Require Import Gram.LalrSpec Gram.LalrSpec_proofs Gram.LalrSpec_proofs2 Gram.LalrSpec_proofs3 Gram.LalrCert Gram.LalrCert_proofs Gram.LalrBuild_proofs Gram.LalrTables_proofs Gram.LalrRefute_proofs.
+From TM Require Import Gram.LalrSpec Gram.LalrSpec_proofs Gram.LalrSpec_proofs2 Gram.LalrSpec_proofs3 Gram.LalrCert Gram.LalrCert_proofs Gram.LalrBuild_proofs Gram.LalrTables_proofs Gram.LalrRefute_proofs Gram.CfgFix_proofs.
 Import ListNotations.
 Local Open Scope Z_scope.
 
@@ -63,6 +63,23 @@ Theorem C03_lalr_la_complete :
   starts_present g a -> aut_complete g a ->
   forall q it x, lalr1 g a q it x -> In x (la_get (lalr_la g a fuel) q it).
 Proof. exact lalr_la_complete. Qed.
+
+(* nullable_set always reaches its fixpoint when the rule heads are nonterminals in range (bounded inflationary
+   iteration), so the nullable hypothesis of the completeness theorem can be dropped for such grammars.  (The
+   same for first_sets and for the fuel of closure is not proved; both are decided by the certificate.) *)
+Theorem C03_nullable_set_closed :
+  forall g, (forall r, In r (g_rules g) -> g_terms g <= r_lhs r < g_terms g + g_nonterms g) ->
+  nullable_closed g (nullable_set g) = true.
+Proof. exact nullable_set_closed. Qed.
+
+Theorem C03_lalr_la_complete_range :
+  forall g a fuel,
+  (forall r, In r (g_rules g) -> g_terms g <= r_lhs r < g_terms g + g_nonterms g) ->
+  first_closed g (nullable_set g) (first_sets g) = true ->
+  la_stable g a (nullable_set g) (first_sets g) (lalr_la g a fuel) = true ->
+  starts_present g a -> aut_complete g a ->
+  forall q it x, lalr1 g a q it x -> In x (la_get (lalr_la g a fuel) q it).
+Proof. exact lalr_la_complete_range. Qed.
 
 (* Both directions from the boolean certificate (all side conditions above are decided by la_cert). *)
 Theorem C03_lalr_la_exact :
@@ -184,3 +201,5 @@ Print Assumptions C03_nullable_is_derives_empty.
 Print Assumptions C03_first_contains_derivable_firsts.
 Print Assumptions C03_reference_views_are_LALR1.
 Print Assumptions C03_lalr_la_textbook_refuted.
+Print Assumptions C03_nullable_set_closed.
+Print Assumptions C03_lalr_la_complete_range.
